@@ -359,7 +359,7 @@ def all_names(fnode) -> List[str]:
 
 
 def for_targets(fnode) -> List[List[str]]:
-    return sorted([_unparse(l.iter), _unparse(l.target)] for l in ast.walk(fnode) if isinstance(l, ast.For))
+    return sorted([_unparse(l.iter), _unparse(l.target)] for l in ast.walk(fnode) if isinstance(l, (ast.For, ast.comprehension)))
 
 
 def _mutates(stmts, text: str) -> bool:
@@ -379,8 +379,12 @@ def items_to_keys(fnode, ref: dict) -> int:
     if not known:
         return 0
     n = 0
+    ref_iters = {it for it, _tg in ref.get("fors", [])}
 
     def candidate(target, it):
+        # only where the reference iterates the mapping itself (its keys) and never its items()
+        if _unparse(it) in ref_iters or not (isinstance(it, ast.Call) and isinstance(it.func, ast.Attribute) and _unparse(it.func.value) in ref_iters):
+            return None
         if not (isinstance(target, ast.Tuple) and len(target.elts) == 2 and isinstance(target.elts[1], ast.Name) and target.elts[1].id not in known):
             return None
         if not (isinstance(it, ast.Call) and isinstance(it.func, ast.Attribute) and it.func.attr == "items" and not it.args and not it.keywords):
@@ -648,6 +652,14 @@ def unroll_display_loops(fnode, ref: dict) -> int:
                 lvl = [x for s2 in st.body for x in ast.walk(s2) if isinstance(x, (ast.Break, ast.Continue))]
                 inner_loops = [x for s2 in st.body for x in ast.walk(s2) if isinstance(x, (ast.For, ast.While))]
                 own_lvl = [x for x in lvl if not any(any(y is x for y in ast.walk(l)) for l in inner_loops)]
+                if len(st.iter.elts) == 1 and isinstance(st.target, ast.Name) and not own_lvl:
+                    # `for x in [e]: BODY` binds x once: `x = e; BODY`
+                    asg = ast.copy_location(ast.Assign(targets=[st.target], value=st.iter.elts[0]), st)
+                    blk[i:i + 1] = [asg] + list(st.body)
+                    ast.fix_missing_locations(asg)
+                    n += 1
+                    i += 1
+                    continue
                 if tn and not (tn & known) and not _stores(body_mod, tn) and not own_lvl and all(_pure(e) for e in st.iter.elts) and len(ast.dump(body_mod)) < 4000 \
                         and not any(_loads(s2, tn) for s2 in blk[i + 1:]):
                     maps = [_bind_target(st.target, e) for e in st.iter.elts]
@@ -828,4 +840,143 @@ def append_loops(tree) -> int:
                     blk[i] = ast.copy_location(ast.AugAssign(target=ast.Name(id=st.value.func.value.id, ctx=ast.Store()), op=ast.Add(), value=st.value.args[0]), st)
                     ast.fix_missing_locations(blk[i])
                     n += 1
+    return n
+
+
+# --------------------------------------------------------------------------------------------------- flattened chains
+def factor_chain_conjunct(fnode, ref: dict) -> int:
+    """`if X and A: .. elif X and B: .. elif X: ..` (every test of the chain starts with the same side-effect-free conjunct, no final else, tests
+    the reference does not have) -> `if X: if A: .. elif B: .. else: ..`"""
+    known = set(ref.get("ifs", [])) | set(ref.get("ifs_noelse", []))
+    n = 0
+    for owner, fld, blk in _blocks(fnode):
+        for i, st in enumerate(blk):
+            if not isinstance(st, ast.If) or _unparse(st.test) in known:
+                continue
+            links = [st]
+            cur = st
+            while len(cur.orelse) == 1 and isinstance(cur.orelse[0], ast.If):
+                cur = cur.orelse[0]
+                links.append(cur)
+            if cur.orelse or len(links) < 2:
+                continue
+
+            def head(t):
+                return t.values[0] if isinstance(t, ast.BoolOp) and isinstance(t.op, ast.And) else t
+            x = head(links[0].test)
+            xt = _unparse(x)
+            if not _pure(x) or not all(_unparse(head(l.test)) == xt for l in links) or not isinstance(links[0].test, ast.BoolOp):
+                continue
+
+            def rest(t):
+                if isinstance(t, ast.BoolOp) and isinstance(t.op, ast.And):
+                    vs = t.values[1:]
+                    return vs[0] if len(vs) == 1 else ast.BoolOp(op=ast.And(), values=vs)
+                return None
+            rests = [rest(l.test) for l in links]
+            if any(r is None for r in rests[:-1]):
+                continue
+            # build the inner chain
+            inner_else = links[-1].body if rests[-1] is None else [ast.If(test=rests[-1], body=links[-1].body, orelse=[])]
+            chain = inner_else
+            upto = links[:-1] if True else links
+            for l, r in reversed(list(zip(links[:-1], rests[:-1]))):
+                chain = [ast.If(test=r, body=l.body, orelse=chain)]
+            new = ast.copy_location(ast.If(test=x, body=chain, orelse=[]), st)
+            ast.fix_missing_locations(new)
+            blk[i] = new
+            n += 1
+    return n
+
+
+# --------------------------------------------------------------------------------------------------- generator helpers
+def inline_generator_helpers(tree, ref_mod: dict) -> int:
+    """a module-level generator function the reference does not have, called once as the argument of `S.join(..)` / `list(..)` / `tuple(..)` /
+    `sorted(..)` in a simple statement: its body runs in the caller with `yield E` -> `<acc>.append(E)` and the call replaced by the accumulator
+    (these consumers exhaust the generator before doing anything else, so the order of all effects is kept)"""
+    from .normalise2 import _bind
+    refglob = set(ref_mod.get("<module>", {}).get("globals", []))
+    if not refglob:
+        return 0
+    n = 0
+    gens = {}
+    for st in tree.body:
+        if isinstance(st, ast.FunctionDef) and st.name not in refglob and not st.decorator_list and not st.args.vararg and not st.args.kwarg and not st.args.kwonlyargs:
+            ys = [x for x in ast.walk(st) if isinstance(x, (ast.Yield, ast.YieldFrom))]
+            body = _strip_doc(st.body)
+            stmt_yields = [s2 for s2 in ast.walk(st) if isinstance(s2, ast.Expr) and isinstance(s2.value, ast.Yield) and s2.value.value is not None]
+            rets = [x for x in ast.walk(st) if isinstance(x, ast.Return)]
+            if ys and len(ys) == len(stmt_yields) and not rets and not any(isinstance(x, (ast.FunctionDef, ast.Lambda, ast.ClassDef)) and x is not st for x in ast.walk(st)):
+                gens[st.name] = st
+    if not gens:
+        return 0
+    for name, g in gens.items():
+        calls = [c for c in ast.walk(tree) if isinstance(c, ast.Call) and isinstance(c.func, ast.Name) and c.func.id == name]
+        refs = [x for x in ast.walk(tree) if isinstance(x, ast.Name) and x.id == name]
+        if len(calls) != 1 or len(refs) != 1:
+            continue
+        call = calls[0]
+        done = False
+        for q, fn in functions_of(tree):
+            if fn is g or done:
+                continue
+            for owner, fld, blk in _blocks(fn):
+                for i, st in enumerate(blk):
+                    if not isinstance(st, (ast.Return, ast.Assign, ast.Expr)) or not any(x is call for x in ast.walk(st)):
+                        continue
+                    # the consumer: S.join(call) / list(call) / ...
+                    cons = [c for c in ast.walk(st) if isinstance(c, ast.Call) and len(c.args) == 1 and c.args[0] is call and not c.keywords
+                            and ((isinstance(c.func, ast.Attribute) and c.func.attr == "join") or (isinstance(c.func, ast.Name) and c.func.id in ("list", "tuple", "sorted", "set")))]
+                    m = _bind(call, g, False)
+                    if not cons or m is None:
+                        continue
+                    # nothing with an effect may be evaluated in the statement before the consumer call
+                    first_call = next((c for c in ast.walk(st) if isinstance(c, ast.Call)), None)
+                    if first_call is not cons[0]:
+                        continue
+                    glocals = set(local_names(g))
+                    taken = {x.id for x in ast.walk(fn) if isinstance(x, ast.Name)} | set(_params(fn))
+                    if glocals & taken:
+                        continue
+                    pre = []
+                    sub = {}
+                    for p_, a in m.items():
+                        if isinstance(a, (ast.Name, ast.Constant)) or (isinstance(a, ast.Attribute) and isinstance(a.value, ast.Name)):
+                            sub[p_] = a
+                        else:
+                            if p_ in taken:
+                                sub = None
+                                break
+                            pre.append(ast.Assign(targets=[ast.Name(id=p_, ctx=ast.Store())], value=a))
+                    if sub is None or _stores(g, set(sub)):
+                        continue
+                    acc = "_pdv_acc"
+                    k = 0
+                    while acc in taken | glocals:
+                        k += 1
+                        acc = f"_pdv_acc{k}"
+                    body = copy.deepcopy(_strip_doc(g.body))
+
+                    class Y(ast.NodeTransformer):
+                        def visit_Expr(self, node):
+                            if isinstance(node.value, ast.Yield):
+                                return ast.copy_location(ast.Expr(value=ast.Call(func=ast.Attribute(value=ast.Name(id=acc, ctx=ast.Load()), attr="append", ctx=ast.Load()), args=[node.value.value], keywords=[])), node)
+                            return node
+                    body = [Y().visit(s2) for s2 in body]
+                    if sub:
+                        sb = _Subst(sub)
+                        body = [sb.visit(s2) for s2 in body]
+                    cons[0].args[0] = ast.Name(id=acc, ctx=ast.Load())
+                    new = [ast.Assign(targets=[ast.Name(id=acc, ctx=ast.Store())], value=ast.List(elts=[], ctx=ast.Load()))] + pre + body
+                    for s2 in new:
+                        ast.copy_location(s2, st)
+                        ast.fix_missing_locations(s2)
+                    blk[i:i] = new
+                    done = True
+                    n += 1
+                    break
+                if done:
+                    break
+        if done:
+            tree.body.remove(g)
     return n
